@@ -14,12 +14,15 @@ DESIGN_REF = "DESIGN.md §4 C12"
 RULE = ("scan: generated age distributions over 0-5 mailboxes (incl. emptied ones) x periods {0,5,30,60,3600,86400} s on the memory "
         "and the file store; a second stream forces 1-3 operations of other clients (deliver, remove, purge, mark seen) between "
         "the scanner's steps (before a mailbox snapshot, before a RemoveMessage call, between the file store's directory reads); "
+        "an id-reuse stream removes every expired message still live (or purges) and delivers fresh mail before the first and between "
+        "the scanner's removals; a stream parks a delivery between its mailbox lookup and its mailbox lock across the removal "
+        "that empties the mailbox (memory store, verifhook mem.wm.lock); "
         "a third cancels the context during the n-th callback; start: the run loop with period <= 0 and with cancellation. "
         "distinct = distinct input line; non-trivial = the store holds at least one message before the scan.")
 TRUSTED = [
     "Model/StoreSpec.v stands for both stores (C07), store operations are atomic (C09)",
     "the forced interleaving is produced by a wrapper around the storage.Store handed to the real RetentionScanner and by the "
-    "verifhook points file.visit.l2/l3 inside VisitMailboxes",
+    "verifhook points file.visit.l2/l3 inside VisitMailboxes and mem.wm.lock inside withMailbox",
     "monotone clock: a message delivered after the scan started is younger than the cutoff",
 ]
 ASSUMPTIONS = ["message ages are at least 2 s away from the retention cutoff in every generated case"]
